@@ -420,6 +420,14 @@ class Inliner:
             e.body = self.expr(e.body, ctx, None, stmt, True)
             e.orelse = self.expr(e.orelse, ctx, None, stmt, True)
             return e
+        if isinstance(e, ast.BoolOp) and isinstance(e.op, ast.Or) and len(e.values) == 2 and \
+                isinstance(e.values[1], ast.Constant) and type(e.values[1].value) in (int, float) and e.values[1].value == 0 and \
+                isinstance(e.values[0], ast.Call) and isinstance(e.values[0].func, ast.Attribute) and \
+                e.values[0].func.attr == 'get' and len(e.values[0].args) == 1 and not e.values[0].keywords:
+            # `d.get(k) or 0` on a mapping of numbers is `d.get(k, 0)` (a stored 0 gives 0 either way): one spelling
+            call = e.values[0]
+            call.args = [call.args[0], e.values[1]]
+            return self.expr(call, ctx, pre, stmt, cond)
         if isinstance(e, ast.BoolOp):
             e.values = [self.expr(v, ctx, pre if i == 0 else None, stmt, cond or i > 0) for i, v in enumerate(e.values)]
             return e
